@@ -122,6 +122,8 @@ def _cells_child(shape: Shape, hist: List[Dict[str, Any]], root: str, env: Dict[
         if res.error_before_exec or res.error_in_exec:
             raise RuntimeError("cell failed: %r\n%s" % (res.error_in_exec or res.error_before_exec, src))
     run("\n".join(mat.HEADER) + "\n")
+    if any(t == "dataclass_local" for t in shape.vtype.values()):
+        run("\n".join(mat.DCM_SRC[2:]) + "\n")
     dds.set_option("extra_debug", bool(env["debug"]))
     ops: List[Any] = []
     api._store_var = worker.make_recording_store(MemoryStore(), ops)
@@ -228,7 +230,7 @@ def _corpus_task(a) -> Dict[str, Dict[str, str]]:
 def run_c03(tier: str) -> int:
     rep = Report("C03", tier)
     evalfam.import_dds()
-    S = [s for s in shp.core_shapes()] + shp.vtype_shapes(["bool", "dict", "tuplelist"]) + [s for s in shp.load_shapes() if s.name in ("ld_df", "ld_earlier")]
+    S = [s for s in shp.core_shapes()] + shp.vtype_shapes(["bool", "dict", "tuplelist", "relpath", "dataclass_local"]) + [s for s in shp.load_shapes() if s.name in ("ld_df", "ld_earlier")]
     r = evalfam.tlc_design(S, PLANS, 1, "memory", "cells", ["one"], name="design03")
     rep.cov["states"] = r.distinct
     rep.cov["transitions"] = r.generated
